@@ -590,9 +590,17 @@ DbModeFkRead(a, out) == LET L == th[a] IN
     DbCall(a, "ST2a", "exec", L.cur, out, Goto(L, "ST2b"), GotoX(L, "ST9", "dberr"), Same(L.cur))
 DbModeFkOff(a, out) == LET L == th[a] IN
     DbCall(a, "ST2b", "exec", L.cur, out, Goto([L EXCEPT !.savedFk = TRUE], "ST3"), GotoX(L, "ST9", "dberr"), Same(L.cur))
+\* SQLite's own write lock: BEGIN IMMEDIATE fails with "database is locked" (after the busy timeout) while another
+\* connection - of any process - is inside a transaction.  Such a failure needs no injected fault.
+Busy(c) == \E c2 \in ConnIds : c2 # c /\ conns[c2].st = "open" /\ conns[c2].inDbTx
 DbBegin(a, out) == LET L == th[a] IN
-    DbCall(a, "ST3b", "begin", L.cur, out, Goto([L EXCEPT !.inTx = TRUE], "ST9"), GotoX(L, "ST9", "dberr"),
-           [conns[L.cur] EXCEPT !.inDbTx = TRUE])
+    IF Busy(L.cur)
+    THEN /\ Obs(a, "ST3b") /\ out = "fail"
+         /\ Note(a, L.cur, "begin")
+         /\ Upd(a, GotoX([L EXCEPT !.faulted = TRUE], "ST9", "dberr"))
+         /\ UNCHANGED <<conns, lock, pre, committed, faults, fowner, forks, npid, dead>>
+    ELSE DbCall(a, "ST3b", "begin", L.cur, out, Goto([L EXCEPT !.inTx = TRUE], "ST9"), GotoX(L, "ST9", "dberr"),
+                [conns[L.cur] EXCEPT !.inDbTx = TRUE])
 
 \* -- provider.commit / rollback / drop ---------------------------------------------
 DbCommit(a, out) == LET L == th[a] c == L.cur IN
@@ -801,6 +809,15 @@ ConnAccounted ==        \* every connection is the thread's pooled one, or was c
 NeverBlockedByDead ==   \* nobody who is outside a session (or dead) is in the way of a later session
     \A p \in Pids : /\ lock[p] # 0 => ~Resting(lock[p]) /\ th[lock[p]].pid \notin dead
                     /\ pre[p] # 0 => ~Resting(pre[p]) /\ th[pre[p]].pid \notin dead
+
+\* The transaction lock is there so that threads never meet SQLite's own write lock: whoever has an open SQLite
+\* transaction holds it.  NOT an invariant of the protocol as coded: SQLiteProvider.commit/rollback release the lock
+\* in their `finally` also when the DB-API call failed, i.e. before SessionCache.rollback()/close() ends the
+\* transaction; in that window another thread acquires the lock and its BEGIN IMMEDIATE fails (Busy).  Checked by TLC
+\* in a run that is expected to find this counterexample, and reported on traces (finding C19:lock-released-...).
+LockCoversTx ==
+    Sqlite => \A c \in ConnIds : conns[c].st = "open" /\ conns[c].inDbTx /\ conns[c].creator \notin dead
+                  => lock[conns[c].creator] = conns[c].by \/ flags.foreignUse
 
 LockEventuallyFree == \A a \in Actors : \A p \in Pids : (lock[p] = a) ~> (lock[p] # a)
 LockEventuallyFree1 == \A a \in Actors : (lock[1] = a) ~> (lock[1] # a)       \* configurations without fork: one process
